@@ -541,10 +541,17 @@ func (sf *SnowflakeProxy) runSession(sid string) {
 	err = broker.sendAnswer(sid, pc)
 	if err != nil {
 		log.Printf("error sending answer to client through broker: %s", err)
+		// The broker may have passed the answer on before the error: if
+		// the client has opened its data channel already, the handler has
+		// the token and returns it when the closed connection ends it.
+		ours := false
+		claim.Do(func() { ours = true })
 		if inerr := pc.Close(); inerr != nil {
 			log.Printf("error calling pc.Close: %v", inerr)
 		}
-		tokens.ret()
+		if ours {
+			tokens.ret()
+		}
 		return
 	}
 	// Set a timeout on peerconnection. If the connection state has not
